@@ -269,17 +269,36 @@ def equivalent(a, b, extra_rules=None) -> str:
         d = sp.expand(a - b)
         if d == 0:
             return Verdict.EQUAL
-        d = sp.simplify(d)
-        if d == 0:
-            return Verdict.EQUAL
-        d2 = sp.expand(sp.expand_trig(sp.expand(a - b, complex=False)))
-        if d2 == 0:
-            return Verdict.EQUAL
+        # opaque sub-terms are abstracted to symbols so that the residual algebra stays small
+        small = abstract_opaque(d)
+        if sp.count_ops(small) <= 400:
+            if sp.simplify(small) == 0:
+                return Verdict.EQUAL
+            if sp.expand(sp.expand_trig(small)) == 0:
+                return Verdict.EQUAL
+            if sp.simplify(sp.together(small)) == 0:
+                return Verdict.EQUAL
     except Exception:
         pass
     if has_unknown(a) or has_unknown(b):
         return Verdict.UNKNOWN
     return Verdict.DIFFERENT
+
+
+def abstract_opaque(t: sp.Basic) -> sp.Basic:
+    """Replace maximal opaque-operator sub-terms by fresh symbols (equal sub-terms -> equal symbols)."""
+    table = {}
+
+    def rec(n):
+        if isinstance(n, sp.Basic) and isinstance(n.func, sp.core.function.UndefinedFunction):
+            if n not in table:
+                table[n] = sp.Symbol(f"@o{len(table)}")
+            return table[n]
+        if not isinstance(n, sp.Basic) or not n.args:
+            return n
+        return n.func(*[rec(a) for a in n.args])
+
+    return rec(t)
 
 
 def show(t, limit: int = 400) -> str:
